@@ -571,7 +571,9 @@ def header_scenario(draw):
 def plan_c19(tier):
     n, per = (4, 150) if tier == 'quick' else (6, 3000)
     m, perm = (6, 120) if tier == 'quick' else (8, 2500)
-    return [{'kind': 'server_built', 'n': per} for _ in range(n)] + [{'kind': 'relayed', 'n': perm} for _ in range(m)]
+    h, perh = (4, 100) if tier == 'quick' else (6, 3000)
+    return [{'kind': 'server_built', 'n': per} for _ in range(n)] + [{'kind': 'relayed', 'n': perm} for _ in range(m)] + \
+        [{'kind': 'handshake', 'n': perh} for _ in range(h)]
 
 
 def check_server_built(scenario, schedule, stats=None):
@@ -678,7 +680,34 @@ def check_relayed(scenario, schedule, stats=None):
             stats.nt(['relay', scenario], None)
 
 
+PASS_POLICY = {'bids': [[0]] * 4, 'plays': [[8]] * 4}
+
+
+def check_handshake(scenario, schedule, stats=None):
+    """Four BUNDLED clients with generated team names go through admission, the Teams line and the board headers of a
+    passed-out session: what the server builds from the team names must be understood by the client's own code."""
+    r, records = run_bundled(scenario, schedule, PASS_POLICY)
+    case = case_of(scenario, schedule, r, {'policy': PASS_POLICY})
+    if r.outcome.status == 'deadlock' and not r.client_exc:
+        raise Violation('session with four bundled clients deadlocked', case, {'blocked': r.outcome.detail})
+    for s_, e in sorted(r.client_exc.items()):
+        raise Violation("the bundled client does not understand what the server built from its team name", case,
+                        {'seat': A.SEATS[s_], 'team': scenario['teams'][s_ % 2], 'exception': repr(e)[:300]})
+    check(r.server_exc is None, 'table manager raised in a passed-out session with bundled clients', case, {'exception': repr(r.server_exc)[:300]})
+    if stats is not None:
+        stats.evaluated()
+        t = scenario['teams']
+        stats.cls('bundled-client handshakes with generated team names')
+        if any(ch in '+?*|()[]\\.^$' for ch in t[0] + t[1]):
+            stats.cls('team name with a character that is special in regular expressions')
+            stats.nt(['hs', t], {'teams': t} if len(t[0]) < 8 else None)
+
+
 def run_shard_c19(spec, seed, tier, stats):
+    if spec['kind'] == 'handshake':
+        v = run_hypothesis(lambda scenario, schedule: check_handshake(scenario, schedule, stats),
+                           {'scenario': header_scenario(), 'schedule': SCHEDULE()}, seed, spec['n'], tier == 'thorough')
+        return [v] if v else []
     if spec['kind'] == 'relayed':
         v = run_hypothesis(lambda scenario, schedule: check_relayed(scenario, schedule, stats),
                            {'scenario': SCENARIO(1, 2, 4), 'schedule': SCHEDULE()}, seed, spec['n'], tier == 'thorough')
